@@ -101,6 +101,23 @@ pub struct Durable {
     pub ratchet_pos: BTreeMap<(usize, u64, bool), u32>,
 }
 
+/// write a member's group: with its tree, or (knob tree-oob) without it, the tree being kept by the application
+pub fn write_group(group: &mut SimGroup, oob: bool) -> Result<(), MlsError> {
+    if oob {
+        group.write_to_storage_without_ratchet_tree()
+    } else {
+        group.write_to_storage()
+    }
+}
+
+/// load a member's group: from storage alone, or with the tree the application kept
+pub fn load_group_oob(client: &SimClient, gid: &[u8], tree: Option<&[u8]>) -> Result<SimGroup, MlsError> {
+    match tree {
+        Some(t) => client.load_group_with_ratchet_tree(gid, mls_rs::group::ExportedTree::from_bytes(t)?),
+        None => client.load_group(gid),
+    }
+}
+
 pub struct Mem {
     pub group: Option<SimGroup>,
     pub status: Status,
@@ -131,6 +148,8 @@ pub struct Mem {
     pub rejoined_same_storage: bool,
     /// reference of the key package this member joined with, until its first write (C07)
     pub join_kp: Option<Vec<u8>>,
+    /// knob tree-oob: the ratchet tree the application stored next to the (tree-less) group state at the last write
+    pub tree_disk: Option<Vec<u8>>,
 }
 
 impl Default for Mem {
@@ -157,6 +176,7 @@ impl Default for Mem {
             ret_nosecret: Default::default(),
             rejoined_same_storage: false,
             join_kp: None,
+            tree_disk: None,
         }
     }
 }
@@ -698,9 +718,66 @@ impl World {
                 }
             }
         }
+        self.roster_accessors(p, g, &group, how)?;
         let digest = hex::encode(&Sha256::digest(&self.groups[g].records[&epoch].ctx)[..6]);
         self.ev(format!("  P{p} g{g} epoch {epoch} via {how} ctx={digest}"));
         crate::oracles::on_epoch(self, p, g, how)?;
+        Ok(())
+    }
+
+    /// the roster a member reports is exactly the occupied leaves of the tree it exports, and every roster accessor
+    /// (by index, by identity, own index, own identity) gives the same member
+    fn roster_accessors(&mut self, p: usize, g: usize, group: &SimGroup, how: &str) -> VResult<()> {
+        let prop = self.cfg.property.clone();
+        let epoch = group.current_epoch();
+        let bad = |what: &str, detail: String| {
+            Violation::new(&prop, "roster-matches-tree", format!("roster:{what}"), format!("P{p} g{g} epoch {epoch} via {how}: {detail}"))
+        };
+        let members = group.roster().members();
+        let tree_bytes = group.export_tree().to_bytes().unwrap_or_default();
+        let Ok(tree) = crate::refmls::Tree::parse(&tree_bytes) else { return Ok(()) };
+        self.stats.check("roster-matches-tree");
+        let occupied = tree.occupied_leaves();
+        let listed: Vec<u32> = members.iter().map(|m| m.index).collect();
+        if occupied != listed {
+            return Err(bad("differs-from-tree", format!("roster() lists leaves {listed:?}, the exported tree has leaves {occupied:?}")));
+        }
+        let iter_idx: Vec<u32> = group.roster().members_iter().map(|m| m.index).collect();
+        if iter_idx != listed || group.roster().member_identities_iter().count() != listed.len() {
+            return Err(bad("iterators-differ", format!("members_iter() gives {iter_idx:?}, members() gives {listed:?}")));
+        }
+        for m in &members {
+            let leaf = tree.leaf(m.index);
+            let key = m.signing_identity.signature_key.as_ref();
+            if leaf.map(|l| l.sig_key.as_slice() != key).unwrap_or(true) {
+                return Err(bad("member-differs-from-leaf", format!("roster member {} does not carry the signature key of leaf {}", m.index, m.index)));
+            }
+            if group.member_at_index(m.index).as_ref() != Some(m) || group.roster().member_with_index(m.index).ok().as_ref() != Some(m) {
+                return Err(bad("by-index", format!("member_at_index({0}) / member_with_index({0}) do not return roster member {0}", m.index)));
+            }
+            if let Some(b) = m.signing_identity.credential.as_basic() {
+                let r = guarded(&prop, "member_with_identity", || group.member_with_identity(&b.identifier))?;
+                if r.ok().as_ref() != Some(m) {
+                    return Err(bad("by-identity", format!("member_with_identity of roster member {} does not return it", m.index)));
+                }
+            }
+        }
+        // a blank or out-of-range index is no member
+        let width = 2 * tree.full_leaves().max(1);
+        for i in (0..width + 1).filter(|i| !occupied.contains(i)) {
+            if group.member_at_index(i).is_some() || group.roster().member_with_index(i).is_ok() {
+                return Err(bad("blank-index", format!("member_at_index({i}) / member_with_index({i}) return a member although leaf {i} is blank or outside the tree")));
+            }
+        }
+        let own = group.current_member_index();
+        let own_m = members.iter().find(|m| m.index == own);
+        let own_id = group.current_member_signing_identity().ok();
+        if own_m.map(|m| Some(&m.signing_identity) != own_id).unwrap_or(true) || own_id != Some(&self.parties[p].signing_identity) && !self.cfg.same_storage_rejoin {
+            // (a party that came back after a removal may carry a newer signing identity than the one it started with)
+            if own_m.map(|m| Some(&m.signing_identity) != own_id).unwrap_or(true) {
+                return Err(bad("own-entry", format!("current_member_index() = {own} / current_member_signing_identity() do not match the roster")));
+            }
+        }
         Ok(())
     }
 
@@ -1747,6 +1824,15 @@ impl World {
         let now = self.now();
         crypto::rec_set_phase(self.step_no as u64);
         let pre = crate::oracles::before_join(self, p, g)?;
+        // C07: looking into the Welcome first (Client::examine_welcome_message) neither spends the key package nor
+        // changes what joining gives
+        let examined = if self.cfg.oracle("joiner") {
+            Some(guarded(&prop, "examine_welcome_message", || {
+                client.examine_welcome_message(&MlsMessage::from_bytes(&wb)?)
+            })?)
+        } else {
+            None
+        };
         let r = crate::oracles::lib_call(self, p, Some(g), "join_group", |_w| {
             guarded(&prop, "join_group", || {
                 let w = MlsMessage::from_bytes(&wb)?;
@@ -1761,6 +1847,32 @@ impl World {
         match r {
             Ok((group, _info)) => {
                 let epoch = group.current_epoch();
+                if let Some(ex) = &examined {
+                    use mls_rs::mls_rs_codec::MlsEncode;
+                    self.stats.check("examined-welcome-equals-joined-group");
+                    let same = match ex {
+                        Ok(gi) => {
+                            gi.group_context().mls_encode_to_vec().ok() == group.context().mls_encode_to_vec().ok()
+                                && gi.extensions() == &_info.group_info_extensions
+                                && gi.sender() == _info.sender
+                        }
+                        Err(_) => false,
+                    };
+                    if !same {
+                        return Err(Violation::new(
+                            &prop,
+                            "joiner-state",
+                            format!("examine-welcome-differs:{}", ex.as_ref().err().map(err_class).unwrap_or_else(|| "content".into())),
+                            format!(
+                                "P{p}: examine_welcome_message on the Welcome of commit {cid} {} although joining with it succeeds (epoch {epoch})",
+                                match ex {
+                                    Ok(_) => "shows another group context, sender or extension list than the joined group has".to_string(),
+                                    Err(e) => format!("fails with {e:?}"),
+                                }
+                            ),
+                        ));
+                    }
+                }
                 let m = self.mem(p, g);
                 m.welcome = None;
                 if let Some(old) = m.group.take() {
@@ -2093,6 +2205,9 @@ impl World {
             }
         }
         let pre = crate::oracles::before_op(self, p, g, "write")?;
+        // knob tree-oob: the application keeps the ratchet tree itself (write_to_storage_without_ratchet_tree +
+        // load_group_with_ratchet_tree)
+        let oob = self.oob();
         // C07: the key-package store fails once when the joiner's first write wants to delete the used key package;
         // the retried write must succeed and must still delete it
         let inject = self.cfg.fault("S-KP-DELETE-ERR")
@@ -2103,7 +2218,7 @@ impl World {
         }
         let res = crate::oracles::lib_call(self, p, Some(g), "write_to_storage", |w| {
             let mut group = w.parties[p].mems[g].group.take().unwrap();
-            let res = guarded(&prop, "write_to_storage", || group.write_to_storage());
+            let res = guarded(&prop, "write_to_storage", || write_group(&mut group, oob));
             w.parties[p].mems[g].group = Some(group);
             res
         });
@@ -2115,7 +2230,7 @@ impl World {
                 self.ev(format!("write P{p} g{g}: key-package delete failed once, retrying"));
                 res = crate::oracles::lib_call(self, p, Some(g), "write_to_storage", |w| {
                     let mut group = w.parties[p].mems[g].group.take().unwrap();
-                    let res = guarded(&prop, "write_to_storage", || group.write_to_storage());
+                    let res = guarded(&prop, "write_to_storage", || write_group(&mut group, oob));
                     w.parties[p].mems[g].group = Some(group);
                     res
                 })?;
@@ -2135,6 +2250,9 @@ impl World {
                 };
                 m.unwritten_sends = 0;
                 m.unwritten_epochs.clear();
+                if oob {
+                    m.tree_disk = m.group.as_ref().and_then(|g| g.export_tree().to_bytes().ok());
+                }
                 if !m.ret_pending.is_empty() || true {
                     let pend = std::mem::take(&mut m.ret_pending);
                     m.ret_disk.extend(pend);
@@ -2199,6 +2317,10 @@ impl World {
         Ok(true)
     }
 
+    pub fn oob(&self) -> bool {
+        self.cfg.knob("tree-oob").is_some()
+    }
+
     pub fn do_reload(&mut self, p: usize, g: usize) -> VResult<bool> {
         if p >= self.parties.len() || g >= self.groups.len() {
             return Ok(false);
@@ -2225,8 +2347,12 @@ impl World {
             &party.signer,
             self.suite,
         );
+        let tree_disk = if self.oob() { self.parties[p].mems[g].tree_disk.clone() } else { None };
+        if tree_disk.is_some() {
+            self.stats.probe("reload-with-tree-from-the-application");
+        }
         let r = crate::oracles::lib_call(self, p, Some(g), "load_group", |_w| {
-            guarded(&prop, "load_group", || client.load_group(&gid))
+            guarded(&prop, "load_group", || load_group_oob(&client, &gid, tree_disk.as_deref()))
         })?;
         self.parties[p].client = client;
         self.parties[p].crashed = false;
